@@ -81,6 +81,33 @@ pub fn exec(line: &str) -> String {
         },
         ["display", a] => hex(shape!(a).to_string().as_bytes()),
         ["echo", a] => sexp(&shape!(a)),
+        ["allocs", family, n] => allocs_family(family, n.parse().unwrap_or(1)),
+        ["ticks_subset", a, c] => {
+            let (a, c) = (shape!(a), shape!(c));
+            json_shape::verif::reset_ticks();
+            let r = a.is_subset(&c);
+            format!("{} {}", b(r), json_shape::verif::ticks()[3])
+        }
+        ["ticks_merger", a, c] => {
+            let (a, c) = (shape!(a), shape!(c));
+            json_shape::verif::reset_ticks();
+            let _ = json_shape::verif::merger(a, c);
+            format!("{}", json_shape::verif::ticks()[2])
+        }
+        ["ticks_infer", h] => {
+            let t = text!(h);
+            json_shape::verif::reset_ticks();
+            let _ = JsonShape::from_str(&t);
+            format!("{}", json_shape::verif::ticks()[1])
+        }
+        ["ticks_inferv", h] => match serde_json::from_str::<serde_json::Value>(&text!(h)) {
+            Ok(v) => {
+                json_shape::verif::reset_ticks();
+                let _ = JsonShape::from(&v);
+                format!("{}", json_shape::verif::ticks()[0])
+            }
+            Err(_) => "unparsable".into(),
+        },
         ["serde", a] => match serde_json::to_string(&shape!(a)) {
             Ok(t) => hex(t.as_bytes()),
             Err(_) => "err".into(),
@@ -231,6 +258,107 @@ fn p_c08(d: &str, e: &str) -> String {
         return "violated: array structure".into();
     }
     format!("ok {} {}", sexp(&s1), sexp(&s2))
+}
+
+fn nested(depth: usize) -> String {
+    let mut s = String::from("1");
+    for _ in 0..depth {
+        s = format!("[{s},1,\"a\"]");
+    }
+    s
+}
+
+fn nested_objs(depth: usize) -> String {
+    let mut s = String::from("{\"k\":1}");
+    for _ in 0..depth {
+        s = format!("[{{\"k\":{s},\"m\":1}},{{\"k\":{s}}}]");
+    }
+    s
+}
+
+/// Heap allocations performed by one call on a member of a growth family (`n` = the family parameter).
+fn allocs_family(family: &str, n: usize) -> String {
+    let measure = |f: &mut dyn FnMut()| {
+        let before = crate::allocs();
+        f();
+        crate::allocs() - before
+    };
+    let mut size = 0usize;
+    let count = match family {
+        "infer_depth" => {
+            let t = nested(n);
+            size = t.len();
+            measure(&mut || {
+                let _ = JsonShape::from_str(&t);
+            })
+        }
+        "inferv_depth" => {
+            size = nested(n).len();
+            let v: serde_json::Value = serde_json::from_str(&nested(n)).unwrap();
+            measure(&mut || {
+                let _ = JsonShape::from(&v);
+            })
+        }
+        "infer_objdepth" => {
+            let t = nested_objs(n.min(12));
+            size = t.len();
+            measure(&mut || {
+                let _ = JsonShape::from_str(&t);
+            })
+        }
+        "inferv_objdepth" => {
+            size = nested_objs(n.min(12)).len();
+            let v: serde_json::Value = serde_json::from_str(&nested_objs(n.min(12))).unwrap();
+            measure(&mut || {
+                let _ = JsonShape::from(&v);
+            })
+        }
+        "infer_width" | "inferv_width" => {
+            let mut t = String::from("[");
+            for i in 0..n {
+                if i > 0 {
+                    t.push(',');
+                }
+                t.push_str(if i % 2 == 0 { "1" } else { "{\"a\":[1,2],\"b\":\"x\"}" });
+            }
+            t.push(']');
+            size = t.len();
+            if family == "infer_width" {
+                measure(&mut || {
+                    let _ = JsonShape::from_str(&t);
+                })
+            } else {
+                let v: serde_json::Value = serde_json::from_str(&t).unwrap();
+                measure(&mut || {
+                    let _ = JsonShape::from(&v);
+                })
+            }
+        }
+        "sources" => {
+            let srcs: Vec<String> = (0..n)
+                .map(|i| match i % 4 {
+                    0 => format!("{{\"a\":{i},\"b\":[1,2]}}"),
+                    1 => format!("{{\"a\":\"s\",\"c{}\":null}}", i % 7),
+                    2 => "[1,\"a\"]".to_string(),
+                    _ => "[1,2,3]".to_string(),
+                })
+                .collect();
+            size = srcs.iter().map(String::len).sum();
+            measure(&mut || {
+                let _ = JsonShape::from_sources(&srcs);
+            })
+        }
+        "subset_depth" => {
+            size = nested_objs(n.min(12)).len();
+            let a = JsonShape::from_str(&nested_objs(n.min(12))).unwrap();
+            let c = json_shape::verif::merger(a.clone(), JsonShape::Null).unwrap();
+            measure(&mut || {
+                let _ = a.is_subset(&c);
+            })
+        }
+        _ => return "bad-family".into(),
+    };
+    format!("{count} {size}")
 }
 
 /// C03 evaluated on the implementation: every source is accepted by the merged shape, three ways.
